@@ -121,6 +121,9 @@ func vfAttrValue(kind string) interface{} {
 		return []int32{5}
 	case "i32x5":
 		return []int32{1, -2, 3, -4, 5}
+	case "f64x9000":
+		// 72 KB: fits neither an object header nor the 64 KiB attribute heap (always refused)
+		return make([]float64, 9000)
 	case "nil":
 		return nil
 	case "badtype":
@@ -401,6 +404,9 @@ func (w *vfWorld) Apply(o vfOp) (err error, panicked bool) {
 // Path names the object the call is aimed at where one is needed.
 var vfBadCalls = []string{
 	"mkds-empty-name", "mkds-relative-name", "mkds-zero-dim", "mkds-no-dims", "mkds-chunk-rank-mismatch", "mkds-chunk-zero",
+	// shapes whose byte size does not fit 64 bits (whether they are refused is not the point:
+	// if they are, nothing may be left behind)
+	"mkds-size-overflow-contiguous", "mkds-size-overflow-chunked", "mkds-size-overflow-chunked-2d",
 	"mkds-maxdims-below-dims", "mkds-maxdims-without-chunks", "mkds-maxdims-rank-mismatch", "mkds-string-without-size",
 	"mkds-array-without-dims", "mkds-enum-mismatch", "mkds-opaque-without-tag", "mkds-unknown-type", "mkds-duplicate", "mkds-missing-parent",
 	"mkgroup-empty", "mkgroup-relative", "mkgroup-root", "mkgroup-duplicate", "mkgroup-missing-parent", "mkgroup-over-dataset-name",
@@ -426,6 +432,15 @@ func vfApplyBad(w *vfWorld, o vfOp) error {
 		return e
 	case "mkds-zero-dim":
 		_, e := fw.CreateDataset("/bad", Int32, []uint64{2, 0})
+		return e
+	case "mkds-size-overflow-contiguous":
+		_, e := fw.CreateDataset("/bad", Int32, []uint64{1 << 62})
+		return e
+	case "mkds-size-overflow-chunked":
+		_, e := fw.CreateDataset("/bad", Int32, []uint64{1 << 62}, WithChunkDims([]uint64{16}))
+		return e
+	case "mkds-size-overflow-chunked-2d":
+		_, e := fw.CreateDataset("/bad", Float64, []uint64{1 << 31, 1 << 31}, WithChunkDims([]uint64{4, 4}), WithMaxDims([]uint64{Unlimited, 1 << 31}))
 		return e
 	case "mkds-no-dims":
 		_, e := fw.CreateDataset("/bad", Int32, nil)
